@@ -179,12 +179,25 @@ func (e *Engine) conjunct(c []Token, filters *[]string) (pred, bool) {
 		case col == "address" && op == "=" && val.Kind == TString:
 			*filters = append(*filters, txt)
 			return func(r Row) bool { s, _ := r["address"].(string); return s == val.Text }, true
+		case col == "id" && op == "=" && (val.Kind == TString || val.Kind == TNumber):
+			return func(r Row) bool { return fmt.Sprint(r["id"]) == val.Text }, true
 		case op == "<" || op == "<=" || op == ">" || op == ">=":
 			n, ok := intOf(val)
 			if !ok {
-				// point-in-time bounds: every row of the static collection is older than "now"
+				// point-in-time bounds: compared as instants when the row carries one, otherwise every
+				// row of a static collection counts as older than the bound
 				if val.Kind == TString && (col == "insertion_date" || col == "timestamp" || col == "date") && (op == "<=" || op == "<") {
-					return func(Row) bool { return true }, true
+					ts, err := time.Parse(time.RFC3339Nano, val.Text)
+					return func(r Row) bool {
+						d, isTime := r[col].(time.Time)
+						if !isTime || err != nil {
+							return true
+						}
+						if op == "<" {
+							return d.Before(ts)
+						}
+						return !d.After(ts)
+					}, true
 				}
 				return nil, false
 			}
